@@ -15,20 +15,22 @@ import (
 )
 
 const (
-	mtOCIIndex  = "application/vnd.oci.image.index.v1+json"
-	mtOCIMan    = "application/vnd.oci.image.manifest.v1+json"
-	mtOCIConfig = "application/vnd.oci.image.config.v1+json"
-	mtOCILayer  = "application/vnd.oci.image.layer.v1.tar+gzip"
-	mtOCIEmpty  = "application/vnd.oci.empty.v1+json"
-	mtDockList  = "application/vnd.docker.distribution.manifest.list.v2+json"
-	mtDockMan   = "application/vnd.docker.distribution.manifest.v2+json"
-	mtDockCfg   = "application/vnd.docker.container.image.v1+json"
-	mtDockLayer = "application/vnd.docker.image.rootfs.diff.tar.gzip"
-	mtDockS1    = "application/vnd.docker.distribution.manifest.v1+json"
-	mtUnknown   = "application/vnd.zzverif.unknown.v1"
-	atSBOM      = "application/vnd.zzverif.sbom.v1"
-	atSig       = "application/vnd.zzverif.sig.v1"
-	extHost     = "ext.test"
+	mtOCIIndex    = "application/vnd.oci.image.index.v1+json"
+	mtOCIMan      = "application/vnd.oci.image.manifest.v1+json"
+	mtOCIConfig   = "application/vnd.oci.image.config.v1+json"
+	mtOCILayer    = "application/vnd.oci.image.layer.v1.tar+gzip"
+	mtOCIEmpty    = "application/vnd.oci.empty.v1+json"
+	mtDockList    = "application/vnd.docker.distribution.manifest.list.v2+json"
+	mtDockMan     = "application/vnd.docker.distribution.manifest.v2+json"
+	mtDockCfg     = "application/vnd.docker.container.image.v1+json"
+	mtDockLayer   = "application/vnd.docker.image.rootfs.diff.tar.gzip"
+	mtDockS1      = "application/vnd.docker.distribution.manifest.v1+json"
+	mtUnknown     = "application/vnd.zzverif.unknown.v1"
+	mtOCIForeign  = "application/vnd.oci.image.layer.nondistributable.v1.tar+gzip"
+	mtDockForeign = "application/vnd.docker.image.rootfs.foreign.diff.tar.gzip"
+	atSBOM        = "application/vnd.zzverif.sbom.v1"
+	atSig         = "application/vnd.zzverif.sig.v1"
+	extHost       = "ext.test"
 )
 
 // edge is one descriptor inside a manifest.
@@ -296,7 +298,7 @@ func (s *shape) referrers(n string) []*node {
 }
 
 var shapeNames = []string{"img", "dup", "idx2", "nested", "art", "artidx", "bentry", "docker", "schema1",
-	"ext", "empty", "inline", "dtag", "loop", "diamond", "diamond2", "artshare", "sha512", "inlinebad", "dupentry", "big", "xref"}
+	"ext", "empty", "inline", "dtag", "loop", "diamond", "diamond2", "artshare", "sha512", "inlinebad", "dupentry", "sigloop", "foreign", "big", "xref"}
 
 func buildShape(name string) *shape {
 	s := newShape(name)
@@ -412,6 +414,21 @@ func buildShape(name string) *shape {
 		m := s.image("M", false, lref{c, dopt{bad: "bytes"}}, []lref{L(l1)}, nil, "")
 		s.index("I", false, []lref{{m, dopt{plat: "linux/amd64", bad: "len"}}}, nil, "")
 		s.Root = "I"
+	case "sigloop": // a platform image X (copied by digest) whose digest tag sha256-<X>.sig is an index that lists X itself
+		cx, lx := s.config("CX", "amd64"), s.blob("LX", 170)
+		x := s.image("X", false, L(cx), []lref{L(lx)}, nil, "")
+		ca, la := s.config("CA", "amd64"), s.blob("LA", 55)
+		a := s.image("A", false, L(ca), []lref{L(la)}, nil, "")
+		sg := s.index("SG", false, []lref{{x, dopt{plat: "linux/amd64"}}, {a, dopt{plat: "linux/amd64"}}}, nil, "")
+		s.addDTag(x, sg, ".sig")
+		s.index("I", false, []lref{{x, dopt{plat: "linux/amd64"}}}, nil, "")
+		s.Root = "I"
+	case "foreign": // layers of the foreign / non-distributable media types: without urls (hosted, has to be copied) and with urls
+		c, l1 := s.config("C", "amd64"), s.blob("L1", 140)
+		lf, ld, lx := s.blob("LF", 260), s.blob("LD", 230), s.blob("LX", 300)
+		s.image("M", false, L(c), []lref{L(l1), {lf, dopt{mt: mtOCIForeign}}, {ld, dopt{mt: mtDockForeign}},
+			{lx, dopt{mt: mtOCIForeign, urls: []string{"http://" + extHost + "/download/LX"}}}}, nil, "")
+		s.Root = "M"
 	case "dupentry": // the same image listed twice in one index (two platforms), next to another one sharing its layer
 		c, l := s.config("C", "amd64"), s.blob("L", 210)
 		m := s.image("M", false, L(c), []lref{L(l)}, nil, "")
